@@ -7,7 +7,7 @@ use fnv::FnvHasher;
 use crate::data_model::Row;
 use crate::execution::{ColumnProvider, ColumnScope, ExecutionError, ExecutionResult, ExpressionTreeHash, ResultRow};
 use crate::execution::column_providers::{HashMapOwnedKeyColumnProvider, SingleColumnProvider};
-use crate::execution::expression_execution::{EvaluationError, ExpressionExecutionEngine};
+use crate::execution::expression_execution::{condition_holds, EvaluationError, ExpressionExecutionEngine};
 use crate::execution::helpers::DistinctValues;
 use crate::helpers::IterExt;
 use crate::model::{Aggregate, AggregateStatement, ExpressionTree, Float, IntervalType, Value, ValueType};
@@ -45,7 +45,7 @@ impl AggregateExecutionEngine {
         let expression_execution_engine = ExpressionExecutionEngine::new(&row);
 
         let valid = if let Some(filter) = aggregate_statement.filter.as_ref() {
-            expression_execution_engine.evaluate(filter)?.bool()
+            condition_holds(expression_execution_engine.evaluate(filter)?)?
         } else {
             true
         };
@@ -670,7 +670,7 @@ fn accept_group<'a>(group_key_mapping: &HashMap<ExpressionTreeHash, usize>,
 
     let row = HashMapOwnedKeyColumnProvider::new(columns);
     let expression_execution_engine = ExpressionExecutionEngine::new(&row);
-    if !expression_execution_engine.evaluate(having)?.bool() {
+    if !condition_holds(expression_execution_engine.evaluate(having)?)? {
         return Ok(false);
     }
 
